@@ -140,6 +140,8 @@ fn build(seeds: &[u16]) -> (CfgSpec, Vec<(String, String, bool)>, Vec<String>, S
             "LIST".to_string(),
             format!("LIST {}", sec),
             format!("LIST #pub0,{}", sec),
+            format!("LIST {},#pub0,#pub1", sec),
+            format!("NAMES {},#pub0", sec),
             format!("LIST {},#nonexistent", sec),
             "NAMES".to_string(),
             format!("NAMES {}", sec),
@@ -181,6 +183,17 @@ fn build(seeds: &[u16]) -> (CfgSpec, Vec<(String, String, bool)>, Vec<String>, S
         }
         for ch in &chans {
             script.push((h.clone(), format!("JOIN {}", ch), true));
+        }
+        // sometimes the observer used to share #pub0 with the hidden user and has been kicked
+        // out of it / has left it again: it is an outsider once more
+        if chans.contains(&"#pub0") && obs_kind != "member-elsewhere" && s.chance(35) {
+            script.insert(0, ("n1".into(), "JOIN #pub0".into(), false));
+            script.push((obs.clone(), "JOIN #pub0".into(), false));
+            if s.chance(60) {
+                script.push(("n1".into(), format!("KICK #pub0 {} :out again", obs), false));
+            } else {
+                script.push((obs.clone(), "PART #pub0".into(), false));
+            }
         }
         if s.chance(30) {
             script.push((h.clone(), "AWAY :hidden away".into(), true));
